@@ -18,7 +18,7 @@ from .. import core, gen
 STREAM = 'DSD_Complex-methods.source-derived'
 VIEWS0 = ['sequence', 'structure', 'size', 'pair_table', 'loop_index', 'exterior_domains', 'enclosed_domains', 'is_connected',
           'kernel_string', 'lol_sequence']
-VIEWS1 = ['strand_length', 'get_paired_loc', 'get_loop_index', 'get_domain']
+VIEWS1 = ['strand_length', 'get_paired_loc', 'get_loop_index', 'get_domain', 'rotate_pairtable_loc']
 
 FAULTS = {'IndexError', 'TypeError', 'ValueError', 'KeyError', 'DSDObjectsError', 'AttributeError', 'ZeroDivisionError'}
 
@@ -57,6 +57,10 @@ def ask(o, view, arg):
         if view == 'kernel_string': return "'" + o.kernel_string + "'"
         if view == 'lol_sequence': return '|'.join(' '.join(map(str, st)) for st in o.lol_sequence)
         if view == 'get_domain': return str(o.get_domain(tuple(map(int, arg.split('.')))))
+        if view == 'rotate_pairtable_loc':
+            l, n = arg.split(';')
+            r = o.rotate_pairtable_loc(tuple(map(int, l.split('.'))), None if n == 'None' else int(n))
+            return '%d.%d' % (r[0], r[1])
     except Exception as e:
         return show_err(e)
     raise core.Infra('unknown view ' + view)
@@ -108,6 +112,8 @@ def ops_for(rng, names, s):
         # mostly inside the table (of SOME rotation: the strands move), sometimes one past its end
         if v == 'strand_length':
             return (v, str(rng.randint(0, n if rng.random() < 0.2 else n - 1)))
+        if v == 'rotate_pairtable_loc':       # ints of either sign for the strand and for n
+            return (v, '%d.%d;%s' % (rng.randint(-2 * n - 1, 2 * n + 1), rng.randint(0, npos), rng.choice(['None', str(rng.randint(-2 * n, 2 * n))])))
         if v in VIEWS1:
             return (v, '%d.%d' % (rng.randint(0, n if rng.random() < 0.1 else n - 1), rng.randint(0, npos if rng.random() < 0.1 else max(npos - 1, 0)) if rng.random() < 0.5 else 0))
         return (v, '-')
